@@ -35,7 +35,13 @@ RULE = ("case 'bad' = (well-formed DBC or SYM text: canmatrix's own output for a
         "object a well-formed statement has defined - DBC: BO_, SG_, BO_TX_BU_, CM_, VAL_ (identifier or a key), VAL_TABLE_ (a key), "
         "SIG_VALTYPE_, SIG_GROUP_, SG_MUL_VAL_, BA_DEF_ (every kind equally often; six in ten generated DBC texts have one to three global "
         "value tables); SYM: an enum statement with a key replaced (behind the original, inside the {ENUMS} section), a Var=/Mux= line with "
-        "its start bit or length replaced (same block). SYM Var=/Mux= statements are also cut inside a quoted text (unit with a blank, long "
+        "its start bit or length replaced (same block). A third of these copies stand IN FRONT of the original (the well-formed statement that "
+        "names the same object is still to come and must take effect): DBC copies that fail to match or whose conversion fails (a BO_/SG_ copy "
+        "anywhere in front of the frame, others behind the last frame and attribute definition), SYM enum copies in front of any enum statement "
+        "up to the original, Var=/Mux= copies earlier in the block. The {ENUMS} section of a SYM text has positions between complete statements "
+        "too (four SYM 'bad' cases in ten, and three large multisets in ten): lines that are no enum statement (no load error), enum statements of a "
+        "new name that fail to parse (a word, a decimal fraction, an entry without text), malformed copies of the file's own enum statements "
+        "(a key replaced, an entry cut behind its key) in front of or behind the statement of that name. SYM Var=/Mux= statements are also cut inside a quoted text (unit with a blank, long "
         "name, quoted name) wherever that text stands, also behind the length field: one load error, nothing written. "
         "Non-trivial = every distinct case.")
 EXHAUSTIVE = {"quick": False, "thorough": False}
@@ -98,6 +104,11 @@ RAISES = {"BO_ abc F: 8 E1", "BO_ 16 F: x E1", "SIG_VALTYPE_ abc s : 1;", "SIG_G
 MATCHOK = {"SG_MUL_VAL_ {fid} nosuchsignal {sig} 1-1;"}
 UNKNOWN_SYM = ["FOO=bar", "XYZ", "Len=8", "Color=red", "Type=Extnded", "Type=", "Type=29", "{FOO}", "{SIGNALS}"]
 BAD_SYM = ["Type", "Var=x unsigned", "Var=x unsigned a,b", "Var=x nosuchtype 0,8", "DLC=abc", "Var=", "Mux=m 0,x 1", "CycleTime=abc", "ID=zzzh"]
+# between the statements of the {ENUMS} section: lines that are no enum statement (skipped without a load error) and enum statements with
+# a name of their own that fail to parse (a word or a decimal fraction where the number of an entry has to stand, an entry without text)
+UNKNOWN_ENUM_SYM = ["FOO=bar", "XYZ", "Len=8", "Enum Zq_u(0=\"a\")", "{FOO}", "value Zq_u(0=\"a\")", "Var=x unsigned 0,8"]
+BAD_ENUM_SYM = ["enum Zq_undefined(x=\"a\", 1=\"b\")", "enum Zq_undefined(0=\"a\", 1)", "enum Zq_undefined(0)", "enum Zq_undefined(0x=\"a\")",
+                "enum Zq_undefined(1.5=\"a\")", "enum Zq_undefined(0=\"a\", one=\"b\", 2=\"c\")"]
 
 
 def allowed_positions_dbc(lines):
@@ -277,15 +288,30 @@ def twins_dbc(rng, lines, pos, taken):
         fields = numeric_fields(st)
         fi = rng.randrange(len(fields))
         kind = twin_kind_dbc(st, fi, len(fields))
-        later = [q for q in pos if q > where.get(st, len(lines))]
-        if kind is None or not later:
+        at = where.get(st, len(lines))
+        later = [q for q in pos if q > at]
+        # in front of the original: the well-formed statement that names the same object is still to come and has to take effect.  Only
+        # copies the reader does not act on at all ('wrong': no match, 'raises': a conversion fails before anything is written); a BO_
+        # copy anywhere in front of the frame, the copy of another statement behind the last frame (and the last attribute definition),
+        # so that everything it refers to has been read
+        front = []
+        if kind in ("wrong", "raises"):
+            floor = -1 if kw in ("BO_", "SG_") else max([n for n, l in enumerate(lines[:at]) if l.lstrip().startswith(("BO_ ", "SG_ ", "BA_DEF_ "))] or [-1])
+            if kw == "SG_":
+                # (not inside the signal list: in front of the frame's BO_ line or earlier)
+                at = max([n for n, l in enumerate(lines[:at]) if l.startswith("BO_ ")] or [-1])
+            front = [q for q in pos if floor < q <= at]
+        if kind is None or not (later or front):
             continue
         a, b = fields[fi]
         # (for a default also the words Python's float() takes for a number: they are no numbers of the format)
         bad = st[:a] + rng.choice(WORDS + FLOAT_WORDS if st.startswith("BA_DEF_DEF_ ") else WORDS) + st[b:]
-        if bad.strip() in taken or any(bad.strip() == b2.strip() for _, b2, _ in found):
+        if bad.strip() in taken or any(bad.strip() == x[1].strip() for x in found):
             continue
-        found.append([later[0] if rng.random() < 0.5 else rng.choice(later), bad, kind])
+        if front and (not later or rng.random() < 0.35):
+            found.append([front[-1] if rng.random() < 0.5 else rng.choice(front), bad, kind, "front"])
+        else:
+            found.append([later[0] if rng.random() < 0.5 else rng.choice(later), bad, kind])
     return found
 
 
@@ -346,23 +372,48 @@ def enum_statements_sym(lines):
     return out
 
 
+def malformed_enum_sym(rng, text):
+    """a malformed copy of the complete enum statement `text` (one line) that keeps the statement's name, None when it has no entry:
+    one of its keys replaced by a word (wrong field type), or one entry that ends behind its key (`2` for `2="on"`: truncated entry).
+    Both fail to parse: one load error, no value table written."""
+    head = text.index("(")
+    keys = [g for g in re.finditer(r'(?:(?<=\()|(?<=, )|(?<=,))\s*(-?\d+)=(?=")', text) if text[:g.start()].count('"') % 2 == 0 and g.start() >= head]
+    if not keys:
+        return None
+    g = rng.choice(keys)
+    if rng.random() < 0.3:
+        close = text.find('"', g.end(1) + 2)
+        if close > 0:
+            return text[:g.end(1)] + text[close + 1:]
+    return text[:g.start(1)] + rng.choice(WORDS) + text[g.end(1):]
+
+
+def enum_places_sym(lines, enums):
+    """the positions between the complete statements of the {ENUMS} section: in front of every enum statement and behind the last one"""
+    return [e[0] for e in enums] + [enums[-1][0] + enums[-1][1]]
+
+
 def twins_sym(rng, lines):
     """'wrong field type' statements derived from the SYM text itself, each [position, line, 'bad'] (one load error, nothing written):
-    - the copy of a complete enum statement with one of its keys replaced by a word, behind the original in the {ENUMS} section (in front
-      of one of the later enum statements or of the line that ends the section)
-    - the copy of a Var=/Mux= line with its start bit or its length replaced by a word, in the same block"""
+    - the malformed copy of a complete enum statement (a key replaced by a word, an entry cut behind its key) anywhere between the
+      statements of the {ENUMS} section: half of the time IN FRONT of the original (directly or in front of an earlier enum statement:
+      the well-formed statement of that name is still to come and has to take effect), otherwise behind it (in front of one of the
+      later enum statements or of the line that ends the section: the table that was read has to stay)
+    - the copy of a Var=/Mux= line with its start bit or its length replaced by a word, in the same block, in front of the original or
+      behind it"""
     found = []
     enums = enum_statements_sym(lines)
     if enums and rng.random() < 0.7:
         idx = rng.randrange(len(enums))
         n, cnt, text = enums[idx]
-        head = text.index("(")
-        keys = [g for g in re.finditer(r'(?:(?<=\()|(?<=, )|(?<=,))\s*(-?\d+)=(?=")', text) if text[:g.start()].count('"') % 2 == 0 and g.start() >= head]
-        if keys:
-            g = rng.choice(keys)
-            bad = text[:g.start(1)] + rng.choice(WORDS) + text[g.end(1):]
-            places = [e[0] for e in enums[idx + 1:]] + [enums[-1][0] + enums[-1][1]]
-            found.append([places[0] if rng.random() < 0.5 else rng.choice(places), bad, "bad"])
+        bad = malformed_enum_sym(rng, text)
+        if bad:
+            places = enum_places_sym(lines, enums)
+            front, behind = places[:idx + 1], places[idx + 1:]
+            if rng.random() < 0.5:
+                found.append([front[-1] if rng.random() < 0.5 else rng.choice(front), bad, "bad", "front"])
+            else:
+                found.append([behind[0] if rng.random() < 0.5 else rng.choice(behind), bad, "bad"])
     blocks = allowed_positions_sym(lines)
     vars_ = [(p, lines[p]) for p in blocks if lines[p].startswith(("Var=", "Mux=")) and truncations_sym(lines[p])]
     if vars_ and rng.random() < 0.7:
@@ -382,7 +433,12 @@ def twins_sym(rng, lines):
                 if cm < len(st):
                     bad = st[:cm].rstrip() + " /%s:%s " % (rng.choice(["f", "o", "min", "max"]), rng.choice(WORDS[:3])) + st[cm:]
             later = [q for q in blocks if q > p and not any(lines[r].strip() == "" for r in range(p, q))]
-            found.append([rng.choice(later) if later and rng.random() < 0.5 else p + 1 if p + 1 in blocks else p, bad, "bad"])
+            # in front of the original, in the same block: the signal of that name is still to come
+            earlier = [q for q in blocks if q <= p and not any(lines[r].strip() == "" or lines[r].startswith("[") for r in range(q, p))]
+            if earlier and rng.random() < 0.4:
+                found.append([p if rng.random() < 0.5 else rng.choice(earlier), bad, "bad", "front"])
+            else:
+                found.append([rng.choice(later) if later and rng.random() < 0.5 else p + 1 if p + 1 in blocks else p, bad, "bad"])
     return found
 
 
@@ -445,6 +501,12 @@ def gen_many(rng, fmt, lines, pos, m, ms):
     of them, shows only here.  Returns the list of [position, line, kind] or None."""
     n = rng.choice(RUN_LENGTHS) + rng.randint(0, 5)
     shape = rng.choice(("run", "run", "runs", "spread"))
+    enums = enum_statements_sym(lines) if fmt == "sym" and rng.random() < 0.3 else []
+    if enums:
+        # the run(s) stand between the statements of the {ENUMS} section
+        pos = enum_places_sym(lines, enums)
+        if shape == "spread":
+            shape = "runs"
     if shape == "run":
         places = [rng.choice(pos)] * n
     elif shape == "runs":
@@ -469,8 +531,18 @@ def gen_many(rng, fmt, lines, pos, m, ms):
     else:
         source = rng.choice(("unknown", "bad", "any", "file"))
         for _ in range(k):
-            cut = cut_from_file_sym(rng, lines) if source == "file" else None
-            if cut:
+            cut = cut_from_file_sym(rng, lines) if source == "file" and not enums else None
+            if enums:
+                # lines that are no enum statement, malformed enum statements of a new name or of the name of one of the file's own
+                b = malformed_enum_sym(rng, rng.choice(enums)[2]) if source == "file" or rng.random() < 0.4 else None
+                if source == "unknown":
+                    pool.append((rng.choice(UNKNOWN_ENUM_SYM), "unknown"))
+                elif b:
+                    pool.append((b, "bad"))
+                else:
+                    b = rng.choice(BAD_ENUM_SYM if source != "any" else BAD_ENUM_SYM + UNKNOWN_ENUM_SYM)
+                    pool.append((b, "unknown" if b in UNKNOWN_ENUM_SYM else "bad"))
+            elif cut:
                 pool.append(cut)
             else:
                 b = rng.choice({"unknown": UNKNOWN_SYM, "bad": BAD_SYM, "file": BAD_SYM, "any": UNKNOWN_SYM + BAD_SYM}[source])
@@ -650,24 +722,42 @@ def _gen_base(rng, tier, shard, nshards):
                         if any(b2.strip() == b.strip() for _, b2, _ in bads):
                             continue
                         bads.append([rng.choice(pos), b, kind])
+            if fmt == "sym" and rng.random() < 0.4:
+                # the {ENUMS} section has positions between complete statements too: lines that are no enum statement, enum statements
+                # of a name of their own that fail to parse, malformed copies of the file's own enum statements (same name) - in front
+                # of the well-formed statement of that name or behind it, also several of them
+                enums = enum_statements_sym(lines)
+                if enums:
+                    places = enum_places_sym(lines, enums)
+                    for _k in range(rng.randint(1, 3)):
+                        r = rng.random()
+                        if r < 0.3:
+                            b, kind = rng.choice(UNKNOWN_ENUM_SYM), "unknown"
+                        elif r < 0.55:
+                            b, kind = rng.choice(BAD_ENUM_SYM), "bad"
+                        else:
+                            b, kind = malformed_enum_sym(rng, rng.choice(enums)[2]), "bad"
+                        if b:
+                            bads.append([rng.choice(places), b, kind, "enums"])
             nowhole = False
             if rng.random() < 0.5:
                 # wrong field types derived from the file's own statements: the copy of a complete statement with one number replaced
                 # by a word, behind the original (it names an object that a well-formed statement has defined)
                 if fmt == "dbc":
-                    twins = twins_dbc(rng, lines, pos, {b2.strip() for _, b2, _ in bads})
+                    twins = twins_dbc(rng, lines, pos, {x[1].strip() for x in bads})
                     # (Model/DbcFile.lean converts the keys of a VAL_TABLE_ statement like `int()` since round 9: the whole-reader model
                     # is compared on these files too)
                     nowhole = False
                 else:
-                    twins = [t for t in twins_sym(rng, lines) if not any(t[1].strip() == b2.strip() for _, b2, _ in bads)]
+                    twins = [t for t in twins_sym(rng, lines) if not any(t[1].strip() == x[1].strip() for x in bads)]
                 for t in twins:
-                    t.append("twin")
+                    t[3:] = ["twin-front" if len(t) > 3 else "twin"]
                 bads.extend(twins)
             if bads:
                 case = {"op": "bad", "c": {"fmt": fmt, "text": text, "ins": [x[:3] for x in bads], "bad": [x[1] for x in bads]}}
-                if any(len(x) > 3 for x in bads):
-                    case["c"]["twins"] = [n for n, x in enumerate(bads) if len(x) > 3]
+                for mark in ("twin", "twin-front", "enums"):
+                    if any(x[3:] == [mark] for x in bads):
+                        case["c"][mark + "s" if mark == "twin" else mark] = [n for n, x in enumerate(bads) if x[3:] == [mark]]
                 if nowhole:
                     # (the model of the whole reader keeps the keys of a VAL_TABLE_ statement as texts, the reader converts them and
                     # skips the statement when one is no number: these files are judged by the op 'bad' alone)
@@ -685,6 +775,25 @@ def _gen_base(rng, tier, shard, nshards):
             for ch in '-/:=,"([|@':
                 occ = [i + 1 for i, x in enumerate(text) if x == ch]
                 ks |= set(rng.sample(occ, min(len(occ), 3)))
+            if fmt == "sym":
+                # cuts inside the switches of Var= and Mux= lines (both kinds of statement equally often, the first Mux= line of a frame
+                # as often as the later ones): right after the character that starts a switch (a lone '-' or '/') and after its letter
+                starts = {"Var": [], "Mux": [], "Mux1": []}
+                off, first_mux, seen_blocks = 0, True, set()
+                for line in text.split("\n"):
+                    if line.startswith("["):
+                        first_mux = line.strip() not in seen_blocks
+                        seen_blocks.add(line.strip())
+                    if line.startswith(("Var=", "Mux=")):
+                        kind = "Var" if line.startswith("Var=") else "Mux1" if first_mux else "Mux"
+                        end = statement_part_sym(line)
+                        starts[kind] += [off + i + 1 for i in range(1, end) if line[i] in "-/" and line[i - 1] == " "]
+                        if kind == "Mux1":
+                            first_mux = False
+                    off += len(line) + 1
+                for occ in starts.values():
+                    for i in rng.sample(occ, min(len(occ), 3)):
+                        ks |= {i, min(i + 1, n)}
             ks = sorted(ks)
             for k in ks:
                 yield {"op": "cut", "c": {"fmt": fmt, "text": text, "k": k}}
@@ -878,6 +987,14 @@ def features(case, impl):
         for n in case["c"].get("twins", []):
             b = case["c"]["ins"][n][1]
             yield "wrong-field-type-twin/%s/%s" % (case["c"]["fmt"], (b.split("=")[0] if case["c"]["fmt"] == "sym" and not b.startswith("enum") else b.split(" ")[0]))
+        for n in case["c"].get("twin-front", []):
+            b = case["c"]["ins"][n][1]
+            yield "malformed-copy-in-front-of-the-original/%s/%s" % (case["c"]["fmt"], (b.split("=")[0] if case["c"]["fmt"] == "sym" and not b.startswith("enum") else b.split(" ")[0]))
+        for n in case["c"].get("enums", []):
+            b, kind = case["c"]["ins"][n][1:3]
+            yield "sym-enums-section/" + ("no-enum-statement" if kind == "unknown" else "malformed-enum-new-name" if b in BAD_ENUM_SYM else "malformed-enum-name-of-the-file")
+        if case["c"].get("many") and case["c"]["fmt"] == "sym" and any(b in UNKNOWN_ENUM_SYM or b.startswith("enum ") for _, b, _ in case["c"]["ins"]):
+            yield "many-in-sym-enums-section"
         for _, b, kind in case["c"]["ins"]:
             yield "fault=" + kind
             if case["c"]["fmt"] == "sym" and b.startswith(("Var=", "Mux=")) and b.count('"') % 2 == 1 and "," in b.split('"')[0]:
